@@ -5,7 +5,7 @@ P=$1; shift
 D=/var/tmp/msmut.$$
 rsync -a --exclude /target /repo/ $D/
 ( cd $D && git apply "$P" ) || { echo "patch does not apply"; rm -rf $D; exit 3; }
-cd /verif && VERIF_REPO=$D CARGO_TARGET_DIR_SUFFIX=$$ ./ms "$@"; rc=$?
+cd /verif && VERIF_REPO=$D MS_EVIDENCE_DIR=$D/.ms_evidence ./ms "$@"; rc=$?
 rm -rf $D
 echo "ms_mut rc=$rc"
 exit $rc
